@@ -222,12 +222,18 @@ func equal(lhsV, rhsV reflect.Value) bool {
 	// while leaving the other side alone. Code further
 	// down takes care of converting ints and floats as needed.
 	if isNum(lhsV) && rhsV.Kind() == reflect.String {
-		rhsF, err := tryToFloat64(rhsV)
+		// same route as for a string on the left: integer numeral first, then float
+		rhsI, err := tryToInt64(rhsV)
 		if err != nil {
-			// Couldn't convert RHS to a float, they can't be compared.
-			return false
+			rhsF, err := tryToFloat64(rhsV)
+			if err != nil {
+				// Couldn't convert RHS to a number, they can't be compared.
+				return false
+			}
+			rhsV = reflect.ValueOf(rhsF)
+		} else {
+			rhsV = reflect.ValueOf(rhsI)
 		}
-		rhsV = reflect.ValueOf(rhsF)
 	} else if lhsV.Kind() == reflect.String && isNum(rhsV) {
 		// If the LHS is a string formatted as an int, try that before trying float
 		lhsI, err := tryToInt64(lhsV)
@@ -255,7 +261,11 @@ func equal(lhsV, rhsV reflect.Value) bool {
 		if lhsKind == rhsKind {
 			return toFloat64(lhsV) == toFloat64(rhsV)
 		}
-		// mixed types: use string representation for compatibility
+		// an integer and a float: compare as float64, like <= and >= do
+		if lhsIsFloat != rhsIsFloat {
+			return toFloat64(lhsV) == toFloat64(rhsV)
+		}
+		// float32 and float64: use string representation for compatibility
 		// (e.g. float32(1.1) should equal float64(1.1))
 		return numToString(lhsV) == numToString(rhsV)
 	}
